@@ -118,7 +118,7 @@ package cache
 // Open: a file is served from the cache store only if its copy completed earlier (the 'cached' set), and a name enters
 // that set only after copyFile returned nil for it.
 //@ spec completeSame(fs *ReadOnlyFS) := forall(k, string, in(k, dom(fs.cached)) == old(in(k, dom(fs.cached))))
-//@ spec completeGrowsBy(fs *ReadOnlyFS, name string) := forall(k, string, implies(k != name, in(k, dom(fs.cached)) == old(in(k, dom(fs.cached))))) && implies(old(complete(fs, name)), complete(fs, name))
+//@ spec completeOthersSame(fs *ReadOnlyFS, name string) := forall(k, string, implies(k != name, in(k, dom(fs.cached)) == old(in(k, dom(fs.cached)))))
 //@ spec knownInfo(fs *ReadOnlyFS, name string) := fs.cacheInfo[name]
 //@ spec infoDir(w int, info hackpadfs.FileInfo) := retW("hackpadfs.(FileInfo).IsDir", 0, w, info)
 
@@ -130,6 +130,7 @@ package cache
 //@   modifies world(), mapOf(fs.cacheInfo), mapOf(fs.cached), mapOf(fs.pathlock.pathLocks), held(pathlock.plMu(fs.pathlock, name))
 //@   callsite copyFile requires "copy-under-the-path-lock" [C11] pathLocked(fs, name)
 //@   callsite Store requires "marked-under-the-path-lock" [C11] pathLocked(fs, name)
+//@   callsite Delete requires "unmarked-under-the-path-lock" [C11] pathLocked(fs, name)
 //@   ensures "path-lock-released" [C11] !pathLocked(fs, name) && pathlock.plInv(fs.pathlock) && pathlock.plOthersSame(fs.pathlock, name)
 //@   ensures "stat-error" implies(!old(known(fs, name)) && old(srcOpenErr(world(), fs, name)) != nil, f == nil && err == old(srcOpenErr(world(), fs, name)) && completeSame(fs))
 //@   ensures "directory" [C16 C17] implies(old(known(fs, name)) && old(infoDir(world(), knownInfo(fs, name))), err == nil && isType(f, *dir) && f.(*dir) != nil && fresh(f.(*dir)) &&
@@ -144,7 +145,9 @@ package cache
 //@   ensures "not-retained" [C10] implies(old(known(fs, name)) && !old(infoDir(world(), knownInfo(fs, name))) && !old(complete(fs, name)) && old(srcOpenErr(world(), fs, name)) == nil &&
 //@                     !old(apply(fs.options.RetainData, name, knownInfo(fs, name))), f == old(srcOpenF(world(), fs, name)) && err == nil && completeSame(fs))
 //@   ensures "gate" [C04 C05] implies(!VP(name) && !old(known(fs, name)), f == nil && errIs(err, hackpadfs.ErrInvalid) && world() == old(world()) && completeSame(fs) && infoSame(fs))
-//@   ensures "monotone" [C11] completeGrowsBy(fs, name)
+//@   tracks copyFile
+//@   ensures "others-kept" [C11] completeOthersSame(fs, name) && implies(old(complete(fs, name)) && !called("copyFile"), complete(fs, name))
+//@   ensures "complete-means-the-last-copy-succeeded" [C11] implies(called("copyFile") && complete(fs, name), result("copyFile", 0) == nil)   // also for a re-fill of a name whose cached file vanished
 //@   nopanic
 
 // The constructor establishes what Stat and Open require: both file systems set, a retain policy, nothing remembered,
